@@ -9,7 +9,8 @@ concrete CSR data of a model hierarchy** (import-free apart from the models; op 
 * `pdB isPos n B`: the certificate of `ldl` passes: the symmetric matrix `B` is positive definite;
 * `jacB isPos ω A`: `pdB` of `2 D − ω A` (the bound `ω A < 2 D` of damped Jacobi, `JacBound`);
 * `nonExpB` / `strictB`: the parameters of a smoother of the cycle model give a non-expansive / strict iteration
-  (Gauss–Seidel / SOR: `0 ≤ ω ≤ 2` / `0 < ω < 2`, one iteration at least; Jacobi: `0 < ω` and `jacB`);
+  (Gauss–Seidel / SOR: `0 ≤ ω ≤ 2` / `0 < ω < 2`, one iteration at least; Jacobi: `0 < ω` and `jacB`; cf / fc Jacobi: the
+  same test as Jacobi, strict when every iteration count is at least one);
 * `galB L A'`: the dense copies satisfy `A' = R A P` (Galerkin coarse matrix);
 * `invB A`: the Gauss–Jordan elimination of the model inverts `A`;
 * `c05SpdCheck`: the conjunction over the hierarchy: finest matrix positive definite with positive diagonal, finest
@@ -67,13 +68,14 @@ def nonExpB (isPos : α → Bool) (ofRat : Rat → α) (A : Csr α) : Sm → Boo
   | .none => true
   | .gs ω _ _ => decide (0 ≤ ω) && decide (ω ≤ 2)
   | .jac ω _ => decide (0 < ω) && jacB isPos (ofRat ω) A
-  | .cfjac _ _ _ _ _ => false
+  | .cfjac _ ω _ _ _ => decide (0 < ω) && jacB isPos (ofRat ω) A
 
 /-- parameters of a strictly energy-reducing smoother of the cycle model -/
 def strictB (isPos : α → Bool) (ofRat : Rat → α) (A : Csr α) : Sm → Bool
   | .gs ω _ k => decide (0 < ω) && decide (ω < 2) && decide (1 ≤ k)
   | .jac ω k => decide (0 < ω) && decide (1 ≤ k) && jacB isPos (ofRat ω) A
-  | _ => false
+  | .cfjac _ ω it fi ci => decide (0 < ω) && decide (1 ≤ it) && decide (1 ≤ fi) && decide (1 ≤ ci) && jacB isPos (ofRat ω) A
+  | .none => false
 
 /-- the Gauss–Jordan elimination of the model inverts `A` -/
 def invB (A : Csr α) : Bool := (solveDense A.n (denseOfCsr A A.n) (zeros A.n)).isSome
